@@ -243,3 +243,71 @@ HARNESSES = {
                    thorough="<=4 nodes, <=5 edges"),
         replay=dict(kind="types_node_edges")),
 }
+
+
+# ------------------------------------------------------------------ fixed-width conversions (C18)
+def converts(I, h):
+    """word/byte conversions are big-endian and mutually inverse; ContentAddress / Signature conversions are the identity
+    on their bytes; word_from_bytes_slice pads / truncates to 8 bytes; bool_from_word accepts exactly 0 and 1"""
+    E = I.E
+    which = E.choose(6, "fn")
+    u8s = lambda p, n: [E.sym_int(f"{p}{i}", "u8") for i in range(n)]
+    be = lambda bs: [mk_int("i64", z3.Concat(*[b.z3() for b in bs[i:i + 8]])) for i in range(0, len(bs), 8)]
+    if which == 0:
+        w = E.sym_int("w", "i64")
+        bs = seq_vals(h.call("types", "bytes_from_word", [w]))
+        check(E, b_not(int_binop("Eq", mk_int("i64", z3.Concat(*[b.z3() for b in bs])), w)), "bytes_from_word is not big-endian")
+        back = h.call("types", "word_from_bytes", [h.vec(bs, "array")])
+        check(E, b_not(int_binop("Eq", back, w)), "word_from_bytes(bytes_from_word(w)) != w")
+        bsym = u8s("b", 8)
+        w2 = h.call("types", "word_from_bytes", [h.vec(list(bsym), "array")])
+        ints_eq(E, seq_vals(h.call("types", "bytes_from_word", [w2])), bsym, "bytes_from_word(word_from_bytes(b)) != b")
+        return "ok"
+    if which in (1, 2):
+        n = 32 if which == 1 else 64
+        f, g = ("word_4_from_u8_32", "u8_32_from_word_4") if which == 1 else ("word_8_from_u8_64", "u8_64_from_word_8")
+        bs = u8s("b", n)
+        ws = seq_vals(h.call("types", f, [h.vec(list(bs), "array")]))
+        ints_eq(E, ws, be(bs), f + " is not the big-endian image")
+        ints_eq(E, seq_vals(h.call("types", g, [h.vec(ws, "array")])), bs, f"{g}({f}(b)) != b")
+        wsym = h.words("w", n // 8)
+        bs2 = seq_vals(h.call("types", g, [h.vec(list(wsym), "array")]))
+        ints_eq(E, seq_vals(h.call("types", f, [h.vec(bs2, "array")])), wsym, f"{f}({g}(w)) != w")
+        return "ok"
+    if which == 3:
+        n = E.choose(11, "len")
+        bs = u8s("b", n)
+        w = h.call("types", "word_from_bytes_slice", [SliceRef(h.vec(list(bs)), 0, n)])
+        padded = (bs + [Int("u8", 0)] * 8)[:8]
+        check(E, b_not(int_binop("Eq", w, mk_int("i64", z3.Concat(*[b.z3() for b in padded])))), "word_from_bytes_slice: not the first 8 bytes zero-padded")
+        return "ok"
+    if which == 4:
+        w = E.sym_int("w", "i64")
+        r = h.call("types", "bool_from_word", [w])
+        if r.variant == "None":
+            check(E, OR_(int_binop("Eq", w, W(0)), int_binop("Eq", w, W(1))), "bool_from_word rejects 0/1")
+        else:
+            b = r.cells[0].v
+            check(E, b_not(int_binop("Eq", w, W(1 if b else 0))), "bool_from_word maps the wrong word")
+        return "ok"
+    # ContentAddress <-> [Word;4] / [u8;32], Signature <-> [u8;65]
+    bs = u8s("b", 65)
+    sig = h.call("types", "<Signature as From<[u8; 65]>>::from", [h.vec(list(bs), "array")])
+    back = seq_vals(h.call("types", "<[u8; 65] as From<Signature>>::from", [sig]))
+    ints_eq(E, back, bs, "Signature <-> [u8; 65] round trip")
+    ints_eq(E, seq_vals(sig.cells[0].v), bs[:64], "signature bytes")
+    check(E, b_not(int_binop("Eq", sig.cells[1].v, bs[64])), "recovery id byte")
+    ca = h.call("types", "<ContentAddress as From<[i64; 4]>>::from", [h.vec(be(bs[:32]), "array")])
+    ints_eq(E, seq_vals(ca.cells[0].v), bs[:32], "ContentAddress from words")
+    ws = seq_vals(h.call("types", "<[i64; 4] as From<ContentAddress>>::from", [ca]))
+    ints_eq(E, ws, be(bs[:32]), "words from ContentAddress")
+    return "ok"
+
+
+def OR_(a, b):
+    return b_or(a, b)
+
+
+HARNESSES["converts"] = _t(["C18", "C12"], converts, witnesses=["ok"],
+    bound_text="all values: every word / byte is symbolic; word_from_bytes_slice on slices of 0..10 bytes",
+    replay=dict(kind="types_convert"))
